@@ -108,6 +108,7 @@ class SymBool:
     def __bool__(self): return Ctx.cur.branch(self.t)
 
 QFORK = [True]
+EXACTDIV = [True]
 
 def _pydivmod(a, b):
     """Python floor division / modulo for a symbolic divisor b != 0 (z3 div/mod are Euclidean)."""
@@ -224,6 +225,11 @@ class SymInt:
             y = z3.Int(f'fdiv{ctx.nfresh}')
             k = z3.Int(f'fdivk{ctx.nfresh}')
             u = _u_of(s, o.p)
+            # exact-division detection: if d | U is valid on this path, the quotient is U div d
+            if EXACTDIV[0] and u.lo is not None and u.hi is not None and o.d > 1:
+                if ctx.check(*ctx.pc, u.t % o.d != 0) == 'unsat':
+                    q = SymInt(u.t / o.d, u.lo // o.d, u.hi // o.d)
+                    return q % o.p
             side = z3.And(y >= 0, y < o.p, y * o.d - u.t == k * o.p)
             if u.lo is not None and u.hi is not None:
                 side = z3.And(side, k >= (0 - u.hi) // o.p - 1, k <= ((o.p - 1) * o.d - u.lo) // o.p + 1)
